@@ -81,6 +81,10 @@ def gen_case(ctx, idx):
         d = rng.choice(dirs)
         ext = rng.choice(ZIP_EXTS + [".ZIP", ".Jar"])
         name = "arch%d%s" % (i, ext)
+        if rng.random() < 0.25 and not os.path.lexists(os.path.join(d, ext)):
+            name = ext           # a file whose whole name is the extension (`.zip`, `.WAR`): its name still ends with it
+        elif rng.random() < 0.15:
+            name = ".hidden%d.tar%s" % (i, ext)
         corrupt = rng.choice([None, None, None, "truncate", "flip", "garbage", "badmember", "badmember"])
         p = os.path.join(d, name)
         m = make_zip(rng, p, corrupt)
@@ -261,6 +265,6 @@ def run(ctx):
     st["hist"]["archives_with_unopenable_member"] = getattr(ctx, "badmember_count", 0)
     ctx.coverage.update(
         evaluations=st["evaluations"], distinct_nontrivial=len(st["distinct"]), traces_validated_against_impl=st["agreed"],
-        rule="random trees with 1-4 zip archives (0-8 members: nested dirs, stored/deflated, every file type and permission bits in the unix mode, dates across months incl. months shorter than today's day, unicode/space names), extensions .zip/.jar/.war/.ear in mixed case, a zip under another extension, a non-empty directory named *.zip / *.jar (and a link to it named *.ear), a dangling link and a self-referential link named like an archive, corrupt archives (truncated, flipped central-directory bytes, garbage), archives with one member that cannot be opened (marked encrypted; it is skipped, the rest listed) x bfs/dfs x mindepth/maxdepth windows x (the default configuration | a configuration file that says nothing about archive extensions) (an archive outside the window contributes no member row): ordinary rows unchanged, members exactly once after their archive in index order, member columns (name, size, is_dir, mode, modified) = what the archive stores, WHERE/ORDER BY/LIMIT apply (ordered top N, and the unordered first N of filtered searches); exact row sequence vs model.Walk; plus every truncation point of one archive. non-trivial = at least two members",
+        rule="random trees with 1-4 zip archives (0-8 members: nested dirs, stored/deflated, every file type and permission bits in the unix mode, dates across months incl. months shorter than today's day, unicode/space names), extensions .zip/.jar/.war/.ear in mixed case (also as the whole file name, and after a second extension of a dot-file), a zip under another extension, a non-empty directory named *.zip / *.jar (and a link to it named *.ear), a dangling link and a self-referential link named like an archive, corrupt archives (truncated, flipped central-directory bytes, garbage), archives with one member that cannot be opened (marked encrypted; it is skipped, the rest listed) x bfs/dfs x mindepth/maxdepth windows x (the default configuration | a configuration file that says nothing about archive extensions) (an archive outside the window contributes no member row): ordinary rows unchanged, members exactly once after their archive in index order, member columns (name, size, is_dir, mode, modified) = what the archive stores, WHERE/ORDER BY/LIMIT apply (ordered top N, and the unordered first N of filtered searches); exact row sequence vs model.Walk; plus every truncation point of one archive. non-trivial = at least two members",
         samples=st["samples"], distribution=dict(st["hist"]))
     return ctx.finish(trusted=["the zip listing (which members a readable archive has) is an input: Python zipfile writes the archives, the zip crate reads them; corrupt archives are only required not to abort or lose other rows"])
